@@ -805,4 +805,150 @@ example : let q : ReqSpec := ⟨.open, ⟨0, 1, 5, 7⟩, 3, ⟨some 1, .invalidI
   simp only [List.mem_cons, Action.intake.injEq, reduceCtorEq, List.not_mem_nil, or_false] at hq
   subst hq; rfl
 
+
+/-! ## The request handed to the client and the payload of its answer (oracle audit C07-H1 / H2)
+
+`forwardOf` is the C04 model of the call site `indexer.order_request(&request)` evaluated on this
+manager's own map; `specForward` is the property's reading ("the right exchange, instrument and
+order id" starts with asking the client about exactly that order). -/
+
+theorem lookup_range_id (n i : Nat) :
+    ((List.range n).map fun i => (i, i)).lookup i = if i < n then some i else none := by
+  induction n with
+  | zero => simp
+  | succ n ih =>
+    rw [List.range_succ, List.map_append, List.lookup_append, ih]
+    by_cases h : i < n
+    · simp [h, Nat.lt_succ_of_lt h]
+    · by_cases h2 : i = n
+      · subst h2; simp
+      · have : ¬ i < n + 1 := by omega
+        have h3 : (i == n) = false := by simp [h2]
+        simp [h, this, h3]
+
+/-- The client is asked about exactly the order the request names: the manager's own exchange, the
+exchange name of the request's instrument, the same strategy, client order id and request state —
+for every request with a configured key. -/
+theorem forward_refines_spec (c : Cfg) (q : ReqSpec) (h : c.configured q.key = true) :
+    forwardOf c q = some (specForward c q) := by
+  simp only [Cfg.configured, Bool.and_eq_true, beq_iff_eq, decide_eq_true_eq] at h
+  simp [forwardOf, specForward, ExecMap.managerClientRequest, ExecMap.orderRequest,
+    ExecMap.EMap.findExchangeId, ExecMap.EMap.findInstrumentName, Cfg.emap, ExecMap.EMap.new,
+    lookup_range_id, h.1, h.2]
+
+/-- … and nothing is handed to the client for any other key (`order_request` fails, the manager
+panics): the C04 call-site model and this model's `configured` agree. -/
+theorem forward_none_iff (c : Cfg) (q : ReqSpec) :
+    forwardOf c q = none ↔ c.configured q.key = false := by
+  by_cases h : c.configured q.key = true
+  · simp [forward_refines_spec c q h, h]
+  · have h' : c.configured q.key = false := by simpa using h
+    simp only [h', iff_true]
+    simp only [Cfg.configured, Bool.and_eq_false_iff, beq_eq_false_iff_ne, decide_eq_false_iff_not] at h'
+    rcases h' with hx | hi
+    · simp [forwardOf, ExecMap.managerClientRequest, ExecMap.orderRequest,
+        ExecMap.EMap.findExchangeId, Cfg.emap, ExecMap.EMap.new, Ne.symm hx]
+    · by_cases hx : c.exchange = q.key.exchange
+      · simp [forwardOf, ExecMap.managerClientRequest, ExecMap.orderRequest,
+          ExecMap.EMap.findExchangeId, ExecMap.EMap.findInstrumentName, Cfg.emap, ExecMap.EMap.new,
+          lookup_range_id, hx, hi]
+      · simp [forwardOf, ExecMap.managerClientRequest, ExecMap.orderRequest,
+          ExecMap.EMap.findExchangeId, Cfg.emap, ExecMap.EMap.new, hx]
+
+/-- A request is handed to the client exactly when it is accepted (pushed in flight): one client
+call per accepted request, none for anything else — on every action, from every state. -/
+theorem forwarded_iff_accepted (c : Cfg) (s : State) (a : Action) :
+    (step c s a).accepted.length = s.accepted.length + (forwarded c s a).length := by
+  cases a with
+  | tick dt => simp [step, forwarded]
+  | shutdown => simp only [step, forwarded]; split <;> simp
+  | poll rid =>
+    simp only [step, forwarded]
+    split
+    · simp
+    · split
+      · simp
+      · split <;> simp
+  | intake q =>
+    simp only [step, forwarded]
+    by_cases hs : s.status ≠ .running
+    · simp [hs]
+    · simp only [hs, if_false]
+      by_cases hc : c.configured q.key = true
+      · simp [hc, forward_refines_spec c q hc]
+      · have hc' : c.configured q.key = false := by simpa using hc
+        simp [hc', (forward_none_iff c q).mpr hc']
+
+/-- What the accepted request is asked with, along any schedule: the forwarded requests of a run
+are the spec's for the accepted requests, in intake order. -/
+theorem forwarded_run (c : Cfg) (as : List Action) (s : State) :
+    (as.foldl (fun (acc : State × List Forwarded) a => (step c acc.1 a, acc.2 ++ forwarded c acc.1 a))
+        (s, [])).2
+      = ((run c s as).accepted.drop s.accepted.length).map (fun r => specForward c r.spec) := by
+  suffices h : ∀ (as : List Action) (s : State) (pre : List Forwarded) (k : Nat), k ≤ s.accepted.length →
+      pre = (s.accepted.drop k).map (fun r => specForward c r.spec) →
+      (as.foldl (fun (acc : State × List Forwarded) a => (step c acc.1 a, acc.2 ++ forwarded c acc.1 a))
+        (s, pre)).2 = ((run c s as).accepted.drop k).map (fun r => specForward c r.spec) by
+    exact h as s [] s.accepted.length (Nat.le_refl _) (by simp)
+  intro as
+  induction as with
+  | nil => intro s pre k _ hp; simpa [run] using hp
+  | cons a as ih =>
+    intro s pre k hk hp
+    simp only [List.foldl_cons, run]
+    refine ih (step c s a) _ k ?_ ?_
+    · have := forwarded_iff_accepted c s a; omega
+    · -- one step: accepted grows by exactly the forwarded request
+      cases a with
+      | tick dt => simpa [step, forwarded] using hp
+      | shutdown => simp only [step, forwarded]; split <;> simpa using hp
+      | poll rid =>
+        simp only [step, forwarded]
+        split
+        · simpa using hp
+        · split
+          · simpa using hp
+          · split <;> simpa using hp
+      | intake q =>
+        simp only [step, forwarded]
+        by_cases hs : s.status ≠ .running
+        · simpa [hs] using hp
+        · simp only [hs, if_false]
+          by_cases hc : c.configured q.key = true
+          · simp [hc, forward_refines_spec c q hc, hp, List.drop_append_of_le_length hk]
+          · have hc' : c.configured q.key = false := by simpa using hc
+            simpa [hc', (forward_none_iff c q).mpr hc'] using hp
+
+/-- "The exchange client's own response": the payload an event carries is the payload of the
+client's answer, for every request, payload and fate (no hypothesis on the echo). -/
+theorem detail_refines_spec (q : ReqSpec) (p : Payload) (f : Fate) :
+    detailOf q p f = specDetail q p f := by
+  cases f with
+  | timeout => rfl
+  | response =>
+    simp only [detailOf, specDetail]
+    cases hr : q.script.reply with
+    | connectivity e => cases e <;> cases q.kind <;> rfl
+    | _ => cases q.kind <;> rfl
+
+/-- An accepted open that is not fully filled carries the client's order id, exchange time and
+filled quantity unchanged; a confirmed cancel its order id and exchange time. -/
+theorem accepted_answer_payload_unchanged (q : ReqSpec) (p : Payload) (h : q.script.reply = .ok) :
+    detailOf q p .response =
+      match q.kind with
+      | .open => if q.script.fills then .none else .opened p.id p.time p.filled
+      | .cancel => .cancelled p.id p.time := by
+  simp only [detailOf, h]; cases q.kind <;> rfl
+
+/-- The manager's own timeout failure carries nothing of the client's. -/
+theorem timeout_carries_nothing (q : ReqSpec) (p : Payload) : detailOf q p .timeout = .none := rfl
+
+/-- the hypotheses are satisfiable / the statements are not vacuous -/
+example : forwardOf ⟨0, 2, 2, 0⟩ ⟨.open, ⟨0, 1, 5, 7⟩, 3, ⟨some 1, .ok, false, ⟨0, 1, 5, 7⟩, 3⟩⟩
+    = some ⟨.open, 0, 1, 5, 7, 3⟩ := by decide
+example : forwardOf ⟨0, 2, 2, 0⟩ ⟨.cancel, ⟨0, 2, 5, 7⟩, 0, ⟨some 1, .ok, false, ⟨0, 2, 5, 7⟩, 0⟩⟩ = none := by decide
+example : forwardOf ⟨0, 2, 2, 0⟩ ⟨.cancel, ⟨1, 1, 5, 7⟩, 0, ⟨some 1, .ok, false, ⟨1, 1, 5, 7⟩, 0⟩⟩ = none := by decide
+example : detailOf ⟨.open, ⟨0, 1, 5, 7⟩, 3, ⟨some 1, .ok, false, ⟨0, 1, 5, 7⟩, 3⟩⟩ ⟨4, 6, 2, 0⟩ .response
+    = .opened 4 6 2 := by decide
+
 end BarterModel.Props.C07
